@@ -246,6 +246,9 @@ int sqfs_block_processor_finish(sqfs_block_processor_t *proc)
 		status = sqfs_block_processor_sync(proc);
 	}
 
+	if (status == 0)
+		status = proc->pool->get_status(proc->pool);
+
 	return status;
 }
 
